@@ -283,20 +283,21 @@ def _check_predict(ctx, f):
             return inner[1][1]
         return None
 
-    ctx.require(len(call.args) >= 3, f"{f.qual}: calibrate_scores call has "
-                "fewer than three positional arguments")
-    sname = popped(call.args[0])
-    tname = popped(call.args[1])
+    b = prog.bind(prog.func(TWINS[0]), call)
+    ctx.require(all(k in b for k in ("scores", "targets", "eval_fdr")),
+                f"{f.qual}: calibrate_scores call does not supply scores, "
+                "targets and eval_fdr")
+    sname = popped(b["scores"])
+    tname = popped(b["targets"])
     ctx.check(sname is not None and tname is not None and sname != tname,
               "C11b-fold-rows", f,
               "calibration gets the next fold's scores and the next fold's "
               "targets (hstack(pop(0)) of two per-fold lists)",
-              f"arguments are {ast.unparse(call.args[0])[:60]} and "
-              f"{ast.unparse(call.args[1])[:60]}", node=call)
-    ctx.check(T.of(call.args[2]) == ("param", "test_fdr"),
+              f"arguments are {ast.unparse(b['scores'])[:60]} and "
+              f"{ast.unparse(b['targets'])[:60]}", node=call)
+    ctx.check(T.of(b["eval_fdr"]) == ("param", "test_fdr"),
               "C11b-eval-fdr", f, "calibration uses the caller's test_fdr",
-              f"third argument is {ast.unparse(call.args[2])}", node=call)
-    b = prog.bind(prog.func(TWINS[0]), call)
+              f"eval_fdr is {ast.unparse(b['eval_fdr'])}", node=call)
     d = b.get("desc")
     ctx.check(d is None or (isinstance(d, ast.Constant)
                             and d.value is True),
